@@ -248,10 +248,10 @@ class KernExporter(object):
 
     def duration_to_kern(self, element: spt.GenericNote) -> str:
         if isinstance(element, spt.GraceNote):
-            if element.grace_type == "acciaccatura":
-                return "p"
-            else:
-                return "q"
+            # "q" is the kern signifier of a grace note without duration (whatever its
+            # type); "p" marks an appoggiatura that keeps its written duration, which is
+            # read back as an ordinary note
+            return "q"
         else:
             if "type" not in element.symbolic_duration.keys():
                 warnings.warn(f"Element {element} has no symbolic duration type")
